@@ -1242,6 +1242,15 @@ pub fn property() -> Property {
                 obs.sample(|| json!({"mutations": classes, "gsd_text": text}));
                 never_panics(&text, obs)
             }),
+            SubCheck::tape("fuzz_bytes", "raw bytes as (lossy) UTF-8 text (entry of the libFuzzer target fz_gsd); byte 0 odd: the marker line is put in front", |t, obs| {
+                let b = t.rest_bytes();
+                let mut text = String::new();
+                if b.first().map(|x| x & 1 == 1).unwrap_or(false) {
+                    text.push_str("#Profibus_DP\n");
+                }
+                text.push_str(&String::from_utf8_lossy(b.get(1..).unwrap_or(&[])));
+                never_panics(&text, obs)
+            }),
             SubCheck::tape("random", "random bytes, printable soup and GSD token soup, with and without the marker: Ok or Err, never a panic", |t, obs| {
                 let mode = t.below(4);
                 let marker = mode >= 1 || t.bool();
@@ -1309,6 +1318,7 @@ pub fn property() -> Property {
                 Step::Pbt { kind: "roundtrip", cases: 100_000, max_len: 400 },
                 Step::Pbt { kind: "mutants", cases: 800_000, max_len: 400 },
                 Step::Pbt { kind: "random", cases: 200_000, max_len: 90 },
+                Step::Fuzz { target: "fz_gsd", runs: 1_500_000 },
             ],
         },
         hang_is_violation: true,
